@@ -27,6 +27,7 @@ PLAN = {'quick': [('group', 500)], 'thorough': [('group', 30000)]}
 CROSS_HASH = {'quick': 120, 'thorough': 3000}     # groups recomputed under other hash seeds
 TIMEOUT = {'quick': 900, 'thorough': 6 * 3600}
 RECHECK = 40
+PAYLOAD_KEEP = 3000   # digests of the first groups are kept for the cross-hashseed comparison
 RULE = ('each run = one workload group: a generated model (random acyclic program or '
         'priors->simulator->summaries->discrepancy) with 2-4 operations of interest '
         '(model.generate(bs, outputs, with_values, seed); BatchHandler.compute(i) for a list of '
@@ -376,7 +377,7 @@ def internal(what, tier, seed):
     res = {}
     with cf.ProcessPoolExecutor(max_workers=int(os.environ.get('VERIF_WORKERS', 8)),
                                 mp_context=multiprocessing.get_context('fork')) as ex:
-        for chunk, _ in ex.map(runner._worker_chunk, jobs):
+        for chunk, _agg, _ in ex.map(runner._worker_chunk, jobs):
             for r in chunk:
                 if 'harness_error' in r:
                     res[str(r['index'])] = {'harness_error': r['harness_error'][-500:]}
@@ -388,9 +389,9 @@ def internal(what, tier, seed):
 
 
 def post(tier, verif_seed, ok, extras):
-    n = min(CROSS_HASH[tier], max(1, int(CROSS_HASH[tier] * float(os.environ.get('VERIF_SCALE', 1)))),
-            len(ok))
-    mine = {str(r['index']): r.get('payload') or {} for r in ok if r['index'] < n}
+    n = min(CROSS_HASH[tier], max(1, int(CROSS_HASH[tier] * float(os.environ.get('VERIF_SCALE', 1)))))
+    mine = {str(r['index']): r['payload'] for r in ok if r['index'] < n and 'payload' in r}
+    n = len(mine)
     viol = []
     compared = 0
     samples = []
